@@ -57,6 +57,20 @@ func callsNamed(in ssa.Instruction, names ...string) bool {
 	return false
 }
 
+// calleeName: the method / function name a call names (for messages).
+func calleeName(cc *ssa.CallCommon) string {
+	if cc == nil {
+		return "?"
+	}
+	if cc.IsInvoke() {
+		return cc.Method.Name()
+	}
+	if sf := staticCallee(cc); sf != nil {
+		return sf.Name()
+	}
+	return "a dynamic call"
+}
+
 func runC14(p *load.Program, r *core.Report) {
 	c14Chain(p, r)
 	lc, writers, readers, rfn := protoLayouts(p)
@@ -494,8 +508,29 @@ func c14Timers(p *load.Program, r *core.Report) {
 			}
 			key := "C14.X4|" + fname(f)
 			inst := "the wait for a remote result/response is a select with a timer case"
-			if hasTimer {
-				r.OK(rule, key, fname(f), p.Pos(in.Pos()), inst, "timer case present")
+			// a pooled timer (lib.TakeTimer) comes back stopped: it must be re-armed on every path to the select
+			armed := true
+			var timerVal ssa.Value
+			for _, st := range sel.States {
+				if base, path, okp := fieldPath(st.Chan); okp && len(path) > 0 && path[len(path)-1] == "C" {
+					timerVal = base
+				}
+			}
+			if hasTimer && timerVal != nil {
+				if c, okc := timerVal.(*ssa.Call); okc && callsNamed(c, "TakeTimer") {
+					isReset := func(i2 ssa.Instruction) bool {
+						cc := callCommon(i2)
+						return cc != nil && callsNamed(i2, "Reset") && len(cc.Args) > 0 && cc.Args[0] == timerVal
+					}
+					if reaches([]Point{{c.Block(), indexIn(c) + 1}}, isReset, func(i2 ssa.Instruction) bool { return i2 == ssa.Instruction(sel) }) != nil {
+						armed = false
+					}
+				}
+			}
+			if hasTimer && !armed {
+				r.Bad(rule, key, fname(f), p.Pos(in.Pos()), inst, "the timer comes from the pool (stopped by its previous user) and a path reaches the select without Reset: the wait never times out")
+			} else if hasTimer {
+				r.OK(rule, key, fname(f), p.Pos(in.Pos()), inst, "timer case present; a pooled timer is re-armed on every path to the select")
 			} else {
 				r.Bad(rule, key, fname(f), p.Pos(in.Pos()), inst, "no timer case: a request in flight hangs forever when the connection is lost")
 			}
